@@ -244,6 +244,75 @@ def ptype_object_lemmas():
             ('C08::Wavefront.ptype invariant', setter_invariant)]
 
 
+def ptype_keyword_lemmas():
+    """Every plane class that documents a `ptype` keyword honours it: the object reports the requested type (and
+    therefore takes the row of the table that belongs to it - the cells themselves are proved per type)."""
+    out = []
+    ctors = {
+        'Plane': lambda ctx, kw: new(ctx, 'lentil.plane.Plane', **kw),
+        'Tilt': lambda ctx, kw: new(ctx, 'lentil.plane.Tilt', x=ctx.fresh_real('tx'), y=ctx.fresh_real('ty'), **kw),
+        'DispersiveTilt': lambda ctx, kw: new(ctx, 'lentil.plane.DispersiveTilt', trace=PyList([ctx.fresh_real('t1'), ctx.fresh_real('t0')]),
+                                              dispersion=PyList([ctx.fresh_real('d1'), ctx.fresh_real('d0')]), **kw),
+        'Grism': lambda ctx, kw: new(ctx, 'lentil.plane.Grism', trace=PyList([ctx.fresh_real('t1'), ctx.fresh_real('t0')]),
+                                     dispersion=PyList([ctx.fresh_real('d1'), ctx.fresh_real('d0')]), **kw),
+    }
+
+    def make(cname):
+        def lemma(ctx):
+            for p in PTYPES:
+                for how in ('name', 'object'):
+                    kw = {'ptype': p if how == 'name' else gptype(ctx, p)}
+                    try:
+                        obj = ctors[cname](ctx, kw)
+                    except Raised as r:
+                        ctx.oblige('C08::ptype_keyword_honoured[%s(ptype=%s as %s)]' % (cname, p, how), False, info={'raises': r.exc})
+                        continue
+                    got = key(ctx, ctx.world.interp.getattr(ctx, obj, 'ptype'))
+                    ctx.oblige('C08::ptype_keyword_honoured[%s(ptype=%s as %s)]' % (cname, p, how), got == p, info={'observed': got})
+        return ('C08::ptype keyword of %s' % cname, lemma)
+    for cname in ctors:
+        out.append(make(cname))
+    return out
+
+
+def propagator_lemmas():
+    """propagate_dft and propagate_fft flip the type of the wavefront they are given (pupil -> image, image ->
+    pupil) and refuse a wavefront of type none with TypeError - on real Wavefront objects with one field."""
+    from contracts import field as F
+    from contracts import wavefront as W
+    out = []
+
+    def make(fn, wtype):
+        def lemma(ctx):
+            f = F.mk_field(ctx, 'f0', 'array', tilt=PyList([]))
+            h, w_ = f.attrs['data'].shape
+            ctx.assume(z3.Not(z3.And(h == 1, w_ == 1)))
+            wshape = (ctx.fresh_int('w.h'), ctx.fresh_int('w.w'))
+            ctx.assume(z3.And(wshape[0] >= 1, wshape[1] >= 1))
+            w = W.mk_wavefront(ctx, [f], ptype=wtype, shape=wshape)
+            du = ctx.fresh_real('du')
+            ctx.assume(du > 0)
+            func = ctx.world.repo.function('lentil.propagate.' + fn)
+            want = {'pupil': 'image', 'image': 'pupil', 'none': None}[wtype]
+            label = '%s(Wavefront(%s))' % (fn, wtype)
+            try:
+                res = ctx.world.interp.call_function(ctx, func, [w], {'pixelscale': du, 'shape': (4, 4), 'oversample': 1})
+            except Raised as r:
+                if r.exc in ('TypeError',):
+                    ctx.oblige('C08::%s' % label, want is None, info={'observed': 'raises TypeError'})
+                else:
+                    from lvc.interp import PathEnd
+                    raise PathEnd('refused for another reason (%s): covered by the propagation contracts' % r.exc)
+                return
+            got = key(ctx, ctx.world.interp.getattr(ctx, res, 'ptype'))
+            ctx.oblige('C08::%s' % label, want is not None and got == want, info={'expected': want, 'observed': got})
+        return ('C08::' + '%s flips %s' % (fn, wtype), lemma)
+    for fn in ('propagate_dft', 'propagate_fft'):
+        for wtype in WTYPES:
+            out.append(make(fn, wtype))
+    return out
+
+
 def all_lemmas():
     table = parse_doc_table()
     classes = parse_class_table()
@@ -266,4 +335,6 @@ def all_lemmas():
         out.append(propagate_lemma(w, False))
         out.append(propagate_lemma(w, True))
     out += ptype_object_lemmas()
+    out += ptype_keyword_lemmas()
+    out += propagator_lemmas()
     return out
